@@ -351,14 +351,21 @@ def check_state(prog, ctx):
     rid = "R15.5"
     an = get_analyzer(prog)
     globs = mutable_globals(prog)
-    for g, kind in sorted(globs.items()):
-        ctx.check(g in EXPECTED_STATE, rid, ("symmray", g), None, f"new module state {g}",
-                  f"module level mutable state `{g}` ({kind}) is in the confirmed inventory")
     writers = {}
     for f, effs in an.effects_by_func.items():
         for e in effs:
             if e.via is None and e.root.startswith("g:"):
                 writers.setdefault(e.root[2:], set()).add(f.name)
+    for g, kind in sorted(globs.items()):
+        if g in EXPECTED_STATE:
+            ctx.ok(rid, f"symmray:{g}", f"module level mutable state `{g}` ({kind}) is in the confirmed inventory")
+        elif not writers.get(g):
+            # a literal table that no function ever writes is a constant, not state
+            ctx.ok(rid, f"symmray:{g}", f"new module level container `{g}` has no writer anywhere in the package (constant table)")
+        else:
+            ctx.bad(rid, ("symmray", g), None, f"new module state {g}",
+                    f"new module level mutable state `{g}` ({kind}) written by {sorted(writers[g])}: process-wide state that can "
+                    "make results depend on call history / threads; it is not in the confirmed inventory")
     for g, ws in sorted(writers.items()):
         allowed = EXPECTED_STATE.get(g)
         if allowed is None:
@@ -387,7 +394,8 @@ def check_state(prog, ctx):
         if has_read and has_move and recomputes:
             ok = True
     ctx.check(ok, rid, cf, cf.node, "LRU lookup", "cache read and move_to_end share one try whose KeyError handler "
-              "recomputes (a concurrent eviction between the two falls back to recomputation)")
+              "recomputes, so an eviction by another thread between membership and read falls back to recomputation "
+              "(a check-then-read `if key in cache: cache[key]` form can raise KeyError under concurrent eviction)")
     # trimming removes the oldest entry only, and only when over the limit
     pops = [n for n in walk_own(cf.node) if isinstance(n, ast.Call) and src(n.func) == "_fuseinfos.popitem"]
     ctx.check(len(pops) == 1 and any(k.arg == "last" and src(k.value) == "False" for k in pops[0].keywords), rid, cf,
